@@ -18,21 +18,26 @@ import (
 	"encoding/binary"
 )
 
-func (s *Segment) getDocStoredMetaAndUnCompressed(docNum uint64) (meta, data []byte, err error) {
-	_, storedOffset, n, metaLen, dataLen, err := s.getDocStoredOffsets(docNum)
+// getDocStoredMetaAndUnCompressed decompresses the stored-field block of docNum
+// into buf (a scratch buffer owned by the caller, never shared between readers)
+// and returns the document's meta and data sections, which alias the returned
+// uncompressed block.
+func (s *Segment) getDocStoredMetaAndUnCompressed(buf []byte, docNum uint64) (meta, data, uncompressed []byte, err error) {
+	_, storedOffset, n, metaLen, dataLen, uncompressed, err := s.getDocStoredOffsets(buf, docNum)
 	if err != nil {
-		return nil, nil, err
+		return nil, nil, nil, err
 	}
 
-	meta = s.storedFieldChunkUncompressed[int(storedOffset+n):int(storedOffset+n+metaLen)]
-	data = s.storedFieldChunkUncompressed[int(storedOffset+n+metaLen):int(storedOffset+n+metaLen+dataLen)]
-	return meta, data, nil
+	meta = uncompressed[int(storedOffset+n):int(storedOffset+n+metaLen)]
+	data = uncompressed[int(storedOffset+n+metaLen):int(storedOffset+n+metaLen+dataLen)]
+	return meta, data, uncompressed, nil
 }
 
-func (s *Segment) getDocStoredOffsets(docNum uint64) (indexOffset, storedOffset, n, metaLen, dataLen uint64, err error) {
+func (s *Segment) getDocStoredOffsets(buf []byte, docNum uint64) (indexOffset, storedOffset, n, metaLen, dataLen uint64,
+	uncompressed []byte, err error) {
 	indexOffset, storedOffset, err = s.getDocStoredOffsetsOnly(docNum)
 	if err != nil {
-		return 0, 0, 0, 0, 0, err
+		return 0, 0, 0, 0, 0, nil, err
 	}
 
 	// document chunk coder
@@ -41,24 +46,23 @@ func (s *Segment) getDocStoredOffsets(docNum uint64) (indexOffset, storedOffset,
 	chunkOffsetEnd := s.storedFieldChunkOffsets[int(chunkI)+1]
 	compressed, err := s.data.Read(int(chunkOffsetStart), int(chunkOffsetEnd))
 	if err != nil {
-		return 0, 0, 0, 0, 0, err
+		return 0, 0, 0, 0, 0, nil, err
 	}
-	s.storedFieldChunkUncompressed = s.storedFieldChunkUncompressed[:0]
-	s.storedFieldChunkUncompressed, err = ZSTDDecompress(s.storedFieldChunkUncompressed[:cap(s.storedFieldChunkUncompressed)], compressed)
+	uncompressed, err = ZSTDDecompress(buf[:cap(buf)], compressed)
 	if err != nil {
-		return 0, 0, 0, 0, 0, err
+		return 0, 0, 0, 0, 0, nil, err
 	}
 
-	metaLenData := s.storedFieldChunkUncompressed[int(storedOffset):int(storedOffset+binary.MaxVarintLen64)]
+	metaLenData := uncompressed[int(storedOffset):int(storedOffset+binary.MaxVarintLen64)]
 	var read int
 	metaLen, read = binary.Uvarint(metaLenData)
 	n += uint64(read)
 
-	dataLenData := s.storedFieldChunkUncompressed[int(storedOffset+n):int(storedOffset+n+binary.MaxVarintLen64)]
+	dataLenData := uncompressed[int(storedOffset+n):int(storedOffset+n+binary.MaxVarintLen64)]
 	dataLen, read = binary.Uvarint(dataLenData)
 	n += uint64(read)
 
-	return indexOffset, storedOffset, n, metaLen, dataLen, nil
+	return indexOffset, storedOffset, n, metaLen, dataLen, uncompressed, nil
 }
 
 func (s *Segment) getDocStoredOffsetsOnly(docNum uint64) (indexOffset, storedOffset uint64, err error) {
